@@ -296,6 +296,26 @@ def compile_project(arg: dict) -> dict:
             with open(p, "w", encoding="utf-8") as fh:
                 fh.write(t)
         main = os.path.join(root, arg["main"])
+        if arg.get("warmup"):
+            # another script of the same project, three directories deeper, that imports the same files, compiled first in this
+            # process: what the compiled file's source map says must not depend on it (paths are relative to the COMPILED file)
+            import re
+            try:
+                wdir = os.path.join(root, "zz_warm", "a", "b")
+                os.makedirs(wdir, exist_ok=True)
+                lines = []
+                for m in re.finditer(r'^\s*import\s+(["\'])(.*?)\1\s*;', arg["texts"][arg["main"]], flags=re.M):
+                    spec = m.group(2)
+                    if spec.startswith("."):
+                        spec = os.path.normpath(os.path.join(os.path.dirname(main), spec))
+                    lines.append('import "' + spec.replace("\\", "/") + '";')
+                wtext = "\n".join(lines) + "\ndef 0 {\n    end;\n}\n"
+                wmain = os.path.join(wdir, "warm.exps")
+                with open(wmain, "w", encoding="utf-8") as fh:
+                    fh.write(wtext)
+                ExplorerScriptSsbCompiler(arg.get("perf", PERF_VAR), arg.get("lookup", [])).compile(wtext, wmain)
+            except BaseException:  # noqa
+                pass
         c = ExplorerScriptSsbCompiler(arg.get("perf", PERF_VAR), arg.get("lookup", []))
         if tr:
             tr.install()
